@@ -137,6 +137,7 @@ type VC struct {
 	strLits map[string]Term
 	defs    map[string]Term
 	pureApps []PureApp
+	pruneTerminal bool
 }
 
 type PureApp struct {
